@@ -30,7 +30,7 @@ def run(tier, replay):
         n = C.count(trace)
         # wire: the real binary on both loopback address families; every connection of a short history must be answered
         import wire_common as W
-        hist = ["valid", "bad", "internal", "valid", "bad", "bad", "internal", "valid"]
+        hist = ["valid", "bad", "internal", "valid", "heavy", "bad", "bad", "internal", "valid"]
         wire_conns = W.run_fixed_histories(sc, [{"n": 2, "hist": hist}, {"n": 2, "hist": hist, "ip6": True}, {"n": 1, "hist": hist[:4], "ip6": True}], verdict, "C04")
         ev["coverage"] = {
             "wire_connections": wire_conns,
